@@ -185,7 +185,7 @@ func (x *Exec) matchSites(root, fr *Frame, st *State, key, full string, args []V
 				last.Watch = watches
 				// checked, then assumed: a site assertion is available as a lemma to what follows
 				if last.GenErr == "" && last.Kind == "site" && last.Goal != "" {
-					x.smt.assume(Implies(st.pc, last.Goal))
+					x.smt.assume(Implies(st.pc, last.AsFact))
 				}
 			}
 			var cprops []string
@@ -732,6 +732,42 @@ func (x *Exec) applySpec(fr *Frame, st *State, spec *FuncSpec, c *ssa.CallCommon
 			}
 		}
 	}
+	for _, h := range spec.HavocElems {
+		if h >= len(args) {
+			continue
+		}
+		var sv SliceV
+		okSlice := false
+		switch a := args[h].(type) {
+		case SliceV:
+			sv, okSlice = a, true
+		case IfaceV:
+			if a.Dyn != nil {
+				if _, isSlice := a.Dyn.Underlying().(*types.Slice); isSlice {
+					sv, okSlice = x.unbox(a.Data, a.Dyn).(SliceV)
+				}
+			}
+		}
+		if !okSlice {
+			x.note("havocelems: argument is not a slice of statically known type; whole heap havocked (" + key + ")")
+			x.havocAll(st, key)
+			continue
+		}
+		elem := sv.Typ.Underlying().(*types.Slice).Elem()
+		sh := leafShape(elem)
+		if structOf(elem) != nil {
+			x.note("havocelems: struct elements not supported; whole heap havocked (" + key + ")")
+			x.havocAll(st, key)
+			continue
+		}
+		x.frameRef(fr, st, sv.Arr, "slice elements rewritten by "+key, pos)
+		for _, l := range sh {
+			name := "E." + typeName(elem) + l.suffix
+			sort := leafArrSort(2, l.sort)
+			A := x.arr(st, name, sort)
+			x.setArr(st, name, sort, Store(A, sv.Arr, m.fresh("elems", arrSort(SInt, l.sort))))
+		}
+	}
 	for _, f := range spec.HavocMF {
 		if ref, ok := objRef(args[0]); ok {
 			for _, name := range sortedKeys(st.heap) {
@@ -775,7 +811,10 @@ func (x *Exec) applySpec(fr *Frame, st *State, spec *FuncSpec, c *ssa.CallCommon
 		env2.pre = pre
 		x.bindCallArgs(env2, c, args)
 		bindResults(env2, res)
+		// callid: a value unique to this application (to index per-call ghost functions)
+		env2.vars["callid"] = intV(m.fresh("callid", SInt))
 		for _, en := range spec.Ensures {
+			env2.assumeMode = true
 			t, err := env2.evalBool(en.E)
 			if err != nil {
 				x.note(fmt.Sprintf("ensures of %s not applicable here: %v", spec.Key, err))
